@@ -715,6 +715,9 @@ def regenerate(gen_dir):
         changed.append("Kernels.lean")
     if write_if_changed(os.path.join(gen_dir, "Dispatch.lean"), t.dispatch()):
         changed.append("Dispatch.lean")
+    import gen_tables
+
+    changed += gen_tables.regenerate(gen_dir)
     return t, changed
 
 
